@@ -38,7 +38,7 @@ PLANS["C15"] = {
     "assumptions": ["hook H4 (verif_waste) reports the real consumed prefix and container length",
                     "exhaustive only up to the stated sequence length; random beyond"],
     "required_features": ["c15.slides_observed", "c15.smallvec_inline_to_heap", "c15.steps_with_nonzero_prefix"],
-    "quick": [R("deque-c15", "dbg", sweep_len=7, cases=40000)],
+    "quick": [R("deque-c15", "dbg", sweep_len=8, cases=200000)],
     "thorough": [R("deque-c15", "dbg", sweep_len=8, cases=400000),
                  R("deque-c15", "rel", sweep=0, sweep_len=8, cases=2000000),
                  R("deque-c15", "miri", sweep=0, sweep_len=8, cases=64, timeout=3000)],
@@ -57,7 +57,7 @@ PLANS["C16"] = {
     "assumptions": ["keys are strictly increasing in generated pushes (whole-item convention: erasing never reorders distinct keys)",
                     "exhaustive only up to the stated sequence length and key universe; random beyond"],
     "required_features": ["c16.middle_removals", "c16.pops", "c16.bad_push_panics_observed", "c16.successful_finds"],
-    "quick": [R("deque-c16", "dbg", sweep_len=6, universe=5, cases=40000)],
+    "quick": [R("deque-c16", "dbg", sweep_len=7, universe=5, cases=200000)],
     "thorough": [R("deque-c16", "dbg", sweep_len=8, universe=5, cases=400000),
                  R("deque-c16", "rel", sweep=0, cases=2000000),
                  R("deque-c16", "miri", sweep=0, cases=64, timeout=3000)],
@@ -271,7 +271,7 @@ PLANS["C17"] = {
                     "the scripted reader logs the buffer length and outcome of every call it receives"],
     "required_features": ["readn.result.ok_full", "readn.result.ok_short", "readn.result.ok_empty_on_eof", "readn.result.err_nothing_delivered",
                           "readn.eintr_retried", "readn.attempt_limit_reached", "readn.target.1", "readn.target.2", "readn.target.3", "readn.target.4"],
-    "quick": [R("readn", "dbg", script_len=5, wrapper_script_len=4, cases=300000)],
+    "quick": [R("readn", "dbg", script_len=6, wrapper_script_len=5, cases=3000000)],
     "thorough": [R("readn", "dbg", script_len=7, wrapper_script_len=6, cases=4000000),
                  R("readn", "asan", script_len=4, wrapper_script_len=3, cases=100000),
                  R("readn", "miri", sweep=0, cases=160, timeout=3000, miriflags="-Zmiri-disable-isolation -Zmiri-disable-stacked-borrows")],
@@ -296,7 +296,7 @@ PLANS["C11"] = {
                           "tlv.c11.sink.Hcobs", "tlv.c11.repeated_tags", "tlv.c11.empty_list", "tlv.c11.single_pair", "tlv.c11.large_list",
                           "tlv.c11.limits.accepted", "tlv.c11.limits.rejected", "tlv.c11.limits.total_exactly_i32_max",
                           "tlv.c11.limits.total_one_over", "tlv.c11.limits.single_value_one_over"],
-    "quick": [R("tlv-c11", "dbg", cases=1500000, claim_cases=1500000)],
+    "quick": [R("tlv-c11", "dbg", cases=10000000, claim_cases=8000000)],
     "thorough": [R("tlv-c11", "dbg", cases=20000000, claim_cases=10000000),
                  R("tlv-c11", "rel", cases=40000000, claim_cases=20000000, count_probe=0),
                  R("tlv-c11", "miri", cases=300, claim_cases=300, timeout=3000, miriflags="-Zmiri-disable-isolation -Zmiri-disable-stacked-borrows")],
@@ -316,7 +316,7 @@ PLANS["C12"] = {
     "required_features": ["tlv.c12.accepted", "tlv.c12.rejected", "tlv.c12.accepted_empty_messages", "tlv.c12.lookups_of_repeated_tags",
                           "tlv.c12.input.n huge", "tlv.c12.input.last offset at payload end +-1", "tlv.c12.input.offsets decreasing",
                           "tlv.c12.input.tags decreasing", "tlv.c12.truncation_points"],
-    "quick": [R("tlv-c12", "dbg", sweep_words=7, cases=3000000)],
+    "quick": [R("tlv-c12", "dbg", sweep_words=8, cases=30000000)],
     "thorough": [R("tlv-c12", "dbg", sweep_words=9, cases=40000000),
                  R("tlv-c12", "rel", sweep=0, cases=100000000),
                  R("tlv-c12", "miri", sweep=0, cases=2000, timeout=3000)],
@@ -338,7 +338,7 @@ PLANS["C14"] = {
                     "the crate's vouching parameters are the ones in its source; a wrong voucher is any other 64-bit value (the voucher map is a bijection)"],
     "required_features": ["vtime.accepted", "vtime.rejected_bad_voucher", "vtime.rejected_outside_window", "vtime.rejected_before_epoch",
                           "vtime.window_or_epoch_edge_cases", "vtime.base_within_70000_of_u64_max", "vtime.now_cases", "vtime.now_provider_error_propagated"],
-    "quick": [R("vtime", "dbg", cases=6000000, now_cases=60000)],
+    "quick": [R("vtime", "dbg", cases=200000000, now_cases=400000)],
     "thorough": [R("vtime", "dbg", cases=100000000, now_cases=400000),
                  R("vtime", "rel", cases=400000000, now_cases=400000),
                  R("vtime", "miri", cases=3000, now_cases=0, timeout=3000)],
@@ -399,7 +399,7 @@ PLANS["C18"] = {
     "required_features": ["park.writer_frozen_holding_lock", "park.writer_frozen_without_lock", "park.second_writer_blocked", "park.solo_paused_mid_read",
                           "park.solo_retried_after_writes_completed", "park.try_update_true", "park.try_update_false_lock_held",
                           "park.static_writer_frozen_holding_lock", "park.frozen_before_Store", "park.frozen_after_Store", "park.frozen_before_Unlock"],
-    "quick": [R("park", "dbg", repeats=4)],
+    "quick": [R("park", "dbg", repeats=16, max_freeze=24)],
     "thorough": [R("park", "dbg", repeats=8),
                  R("park", "rel", repeats=8),
                  R("park", "miri", shards=4, parallel=4, static=0, max_freeze=18, timeout=3000, san_props=["C18", "C13"])],
@@ -425,7 +425,7 @@ PLANS["C19"] = {
     "required_features": ["nfs.base_time_moved", "nfs.untrusted_device_reported_nothing", "nfs.pseudo_fs_reported_nothing",
                           "nfs.older_trusted_file_did_not_move_base", "nfs.get_base_time_refreshed", "nfs.get_base_time_did_not_refresh",
                           "nfs.calls_before_any_trust", "nfs.second_device_trusted", "nfs.trusted_path_swapped_to_other_device"],
-    "quick": [R("nfs", "dbg", shards=960, parallel=64, cases=960)],
+    "quick": [R("nfs", "dbg", shards=4000, parallel=64, cases=4000)],
     "thorough": [R("nfs", "dbg", shards=4000, parallel=64, cases=4000),
                  R("nfs", "rel", shards=1000, parallel=64, cases=1000)],
 }
